@@ -4,6 +4,8 @@
 -/
 import CC.ChaCha.Lemmas
 import CC.ChaCha.Stream
+import CC.ChaCha.Keystream
+import CC.Thm.C02
 namespace CC.Thm.C01
 open CC CC.Simd CC.ChaCha CC.ChaCha.Spec
 
@@ -20,6 +22,32 @@ theorem core_eq_spec (dr : Nat) (x : RS) :
 theorem block_conforms (s : Guts) (dr : Nat) :
     (refill Mach.ref s dr).1 = serialize (add (rounds dr (gutsS16 s)) (gutsS16 s)) :=
   refill_ref_block s dr
+
+/-- **Keystream conformance.** For each of the seven cipher types (3 round counts × 3 nonce
+    layouts), every 32-byte key, every nonce of the type's length and every byte position `p`, the
+    keystream byte the model's stream has at `p` is byte `p mod 64` of the specified block function
+    at block counter `p / 64` (for XChaCha after the HChaCha subkey derivation from the first 16
+    nonce bytes), little-endian serialised. -/
+theorem keystream_conforms (v : Variant) (key nonce : List (BitVec 8)) (hk : key.length = 32)
+    (hn : nonce.length = v.nonceLen) (p : Nat) :
+    (layOf v (Cipher.new Mach.ref v key nonce).buf.state).byteAt v.drounds p = ksByte v key nonce p :=
+  ks_byte_conforms v key nonce hk hn p
+
+/-- **Applying the keystream XORs exactly those bytes and changes nothing else.** From any state
+    `c` reached from `new v key nonce` by any history (that is what `RC … c pos` says, see C02),
+    an in-range `try_apply_keystream(data)` returns `Ok`, the new data has the same length, and its
+    byte `i` is `data[i] XOR Spec.ksByte v key nonce (pos + i)`. -/
+theorem apply_exact (v : Variant) (key nonce : List (BitVec 8)) (hk : key.length = 32)
+    (hn : nonce.length = v.nonceLen) (p : Profile) (c : Cipher) (pos : Nat) (data : List (BitVec 8))
+    (hv : c.v = v) (h : RC (Cipher.new Mach.ref v key nonce).buf.state c pos)
+    (hm : data.length < 2 ^ 64) (hfit : pos + data.length ≤ limitOf v) :
+    ∃ c' out, Cipher.tryApply Mach.ref p c data = .ok (c', some out) ∧ out.length = data.length ∧
+      ∀ i (hi : i < data.length), out[i]? = some (data[i] ^^^ ksByte v key nonce (pos + i)) := by
+  subst hv
+  obtain ⟨c', out, he, hl, hb⟩ := CC.Thm.C02.apply_bytewise _ p c pos data h hm hfit
+  refine ⟨c', out, he, hl, ?_⟩
+  intro i hi
+  rw [hb i hi, ks_byte_conforms c.v key nonce hk hn]
 
 /-- Non-vacuity / spec validation: RFC 7539 §2.3.2 test vector (key 00..1f, counter 1,
     nonce 00 00 00 09 00 00 00 4a 00 00 00 00), first 16 bytes of the block. -/
